@@ -68,35 +68,22 @@ def oracle(case, res):
 
 
 def run(ctx):
-    extra = {}
-    tcp_fail = []
-    try:
+    # reset_peer on real sockets is a scenario family of its own (an in-memory link cannot carry a TCP reset)
+    def side(ctx2, proof):
         from . import tcp as T
-        tcp_fail, tcp_cov = T.reset_peer_runs(ctx, 12 if ctx.tier == "quick" else 300)
-        extra.update(tcp_cov)
-    except ImportError:
-        extra["tcp_runs"] = 0
-    orig_finish = C.Verdict.finish
+        return T.reset_peer_runs(ctx2, (12 if ctx2.tier == "quick" else 300) * (1 if proof["build_ok"] else 3))
 
-    def finish(self):
-        for key, what, rp in tcp_fail[:1]:
-            self.add(key, what, rp)
-        return orig_finish(self)
-
-    C.Verdict.finish = finish
-    try:
-        return L.run_link_property(
-            ctx, PID, gen_cases, oracle,
-            classify=lambda w: "close-time" if ("closed at" in w or "close seen" in w) else ("data" if "bytes" in w or "delayed data" in w else "crash"),
-            rule="slow_close (delay from {0,1,10,50,1000} ms) at positions 1-3 among noops, 0-5 writes then close; reset_peer (timeout from "
-                 "{0,1,40,100,600} ms) added at link start, first input a write or the close; real-socket runs with reset_peer present at connect "
-                 "time; non-trivial = delay/timeout > 0; distinct by JSON",
-            nontrivial=lambda c: c.get("reset_T", 0) > 0 or any(t["type"] == "slow_close" and t["attributes"]["delay"] > 0 for t in c["chain"]),
-            assumptions=["that SO_LINGER 0 + close is seen as a connection reset by the peer is kernel behaviour: observed on real sockets, not modelled",
-                         "reset_peer cases use AddToxic on a started link and are judged by the oracle only (the timed model covers static chains)"],
-            model_filter=lambda c: not c.get("ops"), extra_cov=lambda cs, rs: extra)
-    finally:
-        C.Verdict.finish = orig_finish
+    return L.run_link_property(
+        ctx, PID, gen_cases, oracle,
+        classify=lambda w: "close-time" if ("closed at" in w or "close seen" in w) else ("data" if "bytes" in w or "delayed data" in w else "crash"),
+        rule="slow_close (delay from {0,1,10,50,1000} ms) at positions 1-3 among noops, 0-5 writes then close; reset_peer (timeout from "
+             "{0,1,40,100,600} ms) added at link start, first input a write or the close; real-socket runs with reset_peer present at connect "
+             "time (timeouts 0/20/80/1100 ms, both streams, closer client/upstream/none, payload 0-64 KiB): the peers must see a connection "
+             "reset, no data in the toxic's direction, not before the timeout; non-trivial = delay/timeout > 0; distinct by JSON",
+        nontrivial=lambda c: c.get("reset_T", 0) > 0 or any(t["type"] == "slow_close" and t["attributes"]["delay"] > 0 for t in c["chain"]),
+        assumptions=["that SO_LINGER 0 + close is seen as a connection reset by the peer is kernel behaviour: observed on real sockets, not modelled",
+                     "reset_peer cases use AddToxic on a started link and are judged by the oracle only (the timed model covers static chains)"],
+        model_filter=lambda c: not c.get("ops"), side_findings=side)
 
 
 def replay(ctx, path):
